@@ -43,3 +43,28 @@ Proof.
   - intros x y [<-|[<-|[]]] [<-|[<-|[]]]; reflexivity.
   - repeat split; vm_compute; reflexivity.
 Qed.
+
+(** Round 4 (/repo 3659dfd): GraphCluster chose the normalisation by the type of the FIRST attribute.  With a str first,
+    every value of the list was compared raw -- which is mode [AStr] applied to the whole list; the repaired code
+    normalises every value on its own -- mode [AMixed].  Witness: a str-tagged first item followed by two "isomorphic"
+    items whose list-tagged attributes are permutations of each other. *)
+Definition mix_a : item := MkItem 0 [0; 97]%Z (LG [] []).           (* str "a" *)
+Definition mix_b : item := MkItem 1 [1; 67; 79]%Z (LG [] []).       (* list [67, 79] *)
+Definition mix_c : item := MkItem 2 [1; 79; 67]%Z (LG [] []).       (* list [79, 67] *)
+Definition mix_iso (x y : item) : bool :=
+  Z.eqb (hd 0%Z (it_attr x)) (hd 0%Z (it_attr y)).                  (* b ~ c, a alone *)
+
+Lemma first_item_normalisation_before_repair :
+  gc_key AMixed mix_b = gc_key AMixed mix_c /\
+  gc_fit mix_iso AMixed [mix_a; mix_b; mix_c] = [Some 0; Some 1; Some 1] /\
+  gc_fit mix_iso AStr [mix_a; mix_b; mix_c] = [Some 0; Some 1; Some 2] /\
+  fst (cluster mix_iso AMixed [mix_a; mix_b; mix_c] []) = [0; 1; 1]%Z.
+Proof. repeat split; vm_compute; reflexivity. Qed.
+
+Lemma norm_value_meaning (r : list Z) (t : Z) :
+  norm_value (1%Z :: r) = 1%Z :: sortZ r /\ norm_value (3%Z :: r) = 3%Z :: sortZ r /\
+  (t <> 1%Z -> t <> 3%Z -> norm_value (t :: r) = t :: r) /\ norm_value [] = [].
+Proof.
+  repeat split; try reflexivity. intros H1 H3. unfold norm_value.
+  destruct t as [|p|p]; try reflexivity. destruct p as [p|p|]; try reflexivity; [destruct p; try reflexivity; congruence|congruence].
+Qed.
